@@ -357,6 +357,35 @@ func (e2eFamily) Gen(n int, seed int64, mode, tier string) []interface{} {
 			}
 			s.checks()
 			out = append(out, s.in)
+		case "peerfail":
+			// C11: the node hosting several sessions and subscriptions fails; one survivor is told
+			// by the membership layer, the other only by the survivor's broadcasts
+			s := newScript(rng, 3)
+			s.connect(0, "watch", "c-watch", "", 60, nil)
+			s.sub("watch", []string{"#"}, []int{0})
+			for j := 0; j < 1+rng.Intn(3); j++ {
+				c := fmt.Sprintf("d%d", j)
+				var will *jPub
+				if rng.Intn(2) == 0 {
+					will = &jPub{T: "will/" + c, P: "gone", Q: int32(rng.Intn(2))}
+				}
+				s.connect(1, c, "id-"+c, "", 60, will)
+				var fs []string
+				var qs []int
+				for k := 0; k < 1+rng.Intn(3); k++ {
+					fs = append(fs, fmt.Sprintf("f%d/%s", k, randLevels(rng, fl, 2)))
+					qs = append(qs, rng.Intn(2))
+				}
+				s.sub(c, fs, qs)
+			}
+			s.connect(2, "other", "c-other", "", 60, nil)
+			s.sub("other", []string{"will/#"}, []int{0})
+			s.gossipAll()
+			s.add(e2eOp{Op: "peer_leave", N: 0, Src: 1})
+			s.add(e2eOp{Op: "gossip", Src: 0, N: 2})
+			s.pub("watch", "f0/a", "after-failure", 0, false)
+			s.checks()
+			out = append(out, s.in)
 		case "takeover3":
 			// C12 with reordered gossip over three nodes: the tombstone of the displaced session
 			// reaches a bystander before the (older) creation it removes
